@@ -18,7 +18,7 @@ CHECKS = {
         category="model_checking",
         design="DESIGN.md section 4, C15",
         technique="explicit-state model checking of the real SlidingDeque: BFS closure over abstract shapes + exhaustive depth-bounded DFS of all op sequences, VecDeque reference model",
-        text="Every operation sequence over a 14-op alphabet up to depth 7 (quick) / 8 (thorough) is executed on the real SlidingDeque (Vec, SmallVec<[u32;2]> and an instrumented Vec backing, from empty and From<container> starts, with and without debug assertions) and compared step by step with a VecDeque, both by explorers that copy the deque before every op (exactly-fitting capacity: every push meets a full container) and, to depth 5 / 6, by re-executing each history on one object (amortised capacities); a 16-op alphabet adds clone_from into a deque with history (7 fresh items, with and without a consumed prefix in the source), and a zero-sized family runs all sequences to depth 4 / 5 on SlidingDeque<Vec<()>> of usize::MAX, usize::MAX - 1 and isize::MAX + 1 items (cursor arithmetic at the top of the usize range) against a counter model; in addition a breadth-first closure over the abstract state (physical length, consumed prefix) with <= 24 live elements (containers on both sides of the 64-byte mark) reaches a fix-point, which by data independence covers unbounded histories within that size. The space bound (consumed prefix <= half the backing length) is observed directly through the instrumented backing.",
+        text="Every operation sequence over a 14-op alphabet up to depth 7 (quick) / 8 (thorough) is executed on the real SlidingDeque (Vec, SmallVec<[u32;2]> and an instrumented Vec backing, from empty and From<container> starts, with and without debug assertions) and compared step by step with a VecDeque, both by explorers that copy the deque before every op (exactly-fitting capacity: every push meets a full container) and, to depth 5 / 6, by re-executing each history on one object (amortised capacities); large containers (From<container> with 1024 / 1500 / 5000 items, Vec and spilled SmallVec) run all sequences to depth 4 / 5 over 8 ops including advance(len - len/5); a 16-op alphabet adds clone_from into a deque with history (7 fresh items, with and without a consumed prefix in the source), and a zero-sized family runs all sequences to depth 4 / 5 on SlidingDeque<Vec<()>> of usize::MAX, usize::MAX - 1 and isize::MAX + 1 items (cursor arithmetic at the top of the usize range) against a counter model; in addition a breadth-first closure over the abstract state (physical length, consumed prefix) with <= 24 live elements (containers on both sides of the 64-byte mark) reaches a fix-point, which by data independence covers unbounded histories within that size. The space bound (consumed prefix <= half the backing length) is observed directly through the instrumented backing.",
         note="Assumes the deque's control flow does not depend on element values (no Ord/Eq bound); logical lengths > 8 are not enumerated; reference model is std VecDeque.",
     ),
     "C16": dict(
@@ -36,7 +36,7 @@ CHECKS["C11"] = dict(
     category="exploration",
     design="DESIGN.md section 4, C11",
     technique="bounded-exhaustive enumeration of pair lists x value kinds x constructors x sinks on the real encoder, independent layout function + MessageView read-back as oracle",
-    text="Every pair list with 0..4 (quick) / 0..5 (thorough) pairs over 6 tags (including pairs whose byte order differs from numeric order) and 3 value lengths, in every order, for six value kinds (&[u8], &str, Cow bytes/str with every borrowed/owned mask, nested MessageWrapper two levels deep, MessageView), through new / new_from_slice / new_from_sorted and into three sinks (OwningIovec, &mut reborrow, hcobs::Encoder) is encoded by the real code; bytes are compared with an independent layout function, rough_tlv_len with the emitted length, and MessageView must return the same pairs. Long lists (every periodic tag pattern of period <= 4 at every length 0..72) cover sort stability beyond the small-sort threshold; claimed-length values cover the i32::MAX limits.",
+    text="Every pair list with 0..4 (quick) / 0..5 (thorough) pairs over 6 tags (including pairs whose byte order differs from numeric order) and 3 value lengths, in every order, for six value kinds (&[u8], &str, Cow bytes/str with every borrowed/owned mask, nested MessageWrapper two levels deep, MessageView), through new / new_from_slice / new_from_sorted and into three sinks (OwningIovec, &mut reborrow, hcobs::Encoder) is encoded by the real code; bytes are compared with an independent layout function, rough_tlv_len with the emitted length, and MessageView must return the same pairs. Long lists (every periodic tag pattern of period <= 4 at every length 0..72) cover sort stability beyond the small-sort threshold; values of 65 535 .. 200 000 bytes (every leaf kind, borrowed and owned, 3 constructors, iovec and hcobs sinks) cover copies fed to the sink in pieces; the read-back also indexes one and two past the end; claimed-length values cover the i32::MAX limits.",
     note="The pair-count > i32::MAX rejection is not run (needs an 8 GiB slice). Exhaustive only within the stated finite product.",
 )
 CHECKS["C12"] = dict(
@@ -44,7 +44,7 @@ CHECKS["C12"] = dict(
     category="exploration",
     design="DESIGN.md section 4, C12",
     technique="bounded-exhaustive enumeration of byte buffers (word alphabet x length x trailing bytes) on the real MessageView, reference predicate in u128 arithmetic + reference layout as oracle",
-    text="Every buffer of <= 7 (quick) / 8 (thorough) little-endian words over a 13-word alphabet chosen to hit every header shape (N = 0..8, N beyond the buffer, N near 2^29 / 2^31 / 2^32, equal / decreasing / out-of-range offsets and tags, 0xFF vs 0x100) with 0-3 trailing bytes, plus one more word over an 8-word alphabet, is given to MessageView::new (borrowed and owned storage). Borrowed buffers sit at every address modulo 4 (rotating through all addresses modulo 8 in the main enumeration); payloads of 2^32 - 1, 2^32 + 5 and 2^33 + 1 bytes (lazily zeroed) check the 32-bit offset arithmetic against 64-bit lengths. Long headers (N = 2..40, strictly increasing tags and offsets except for exactly one descent or equality at every position) cover scans that work in blocks. Accept/reject must equal the format predicate; on accepted views len/is_empty/tags/iter/get/get_value/find/find_tag/tags_match_exactly are compared with the reference layout for indices 0..N+2 and usize::MAX, by position and content; nothing may panic.",
+    text="Every buffer of <= 7 (quick) / 8 (thorough) little-endian words over a 13-word alphabet chosen to hit every header shape (N = 0..8, N beyond the buffer, N near 2^29 / 2^31 / 2^32, equal / decreasing / out-of-range offsets and tags, 0xFF vs 0x100) with 0-3 trailing bytes, plus one more word over an 8-word alphabet, is given to MessageView::new (borrowed and owned storage). Borrowed buffers sit at every address modulo 4 (rotating through all addresses modulo 8 in the main enumeration); payloads of 2^32 - 1, 2^32 + 5 and 2^33 + 1 bytes (lazily zeroed) check the 32-bit offset arithmetic against 64-bit lengths. Long headers (N = 2..40, strictly increasing tags and offsets except for exactly one descent or equality at every position) cover scans that work in blocks. Accept/reject must equal the format predicate; on accepted views len/is_empty/tags/iter/get/get_value/find/find_tag/tags_match_exactly are compared with the reference layout for indices 0..N+2, 2^31, 2^32, 2^32 + 1, 2^32 + N - 1, 2^33 and usize::MAX, by position and content; every present tag is looked up twice in a row, forward and backward (lookups must be pure); nothing may panic.",
     note="Values outside the word alphabet are not tried; the predicate only compares words with each other and with the buffer length, and the alphabet has representatives on both sides of each comparison.",
 )
 
@@ -79,7 +79,7 @@ CHECKS["C04"] = dict(
     category="model_checking",
     design="DESIGN.md section 4, C04",
     technique="stateless model checking: exhaustive DFS over all register/backfill/push/consume histories (17-op alphabet, depth 7-8) of the real OwningIovec against a reference model with marked holes",
-    text="All histories over a 17-op backpatch alphabet (a clone taken while placeholders are pending, whose views must hide them too; non-initial states with 5-7 placeholders in flight; copies sized to leave exactly 4 bytes in the current arena chunk so that placeholders straddle a chunk end, placeholders of size 0/1/2 with up to 5 in flight, backfill of the 1st/2nd/3rd/last pending in any order, merging and non-merging pushes, cache flush, slice and byte consumption) to depth 7 (quick) / 8 (thorough), plus seeds, plus the chunk-end alphabet F (70-byte placeholders straddling a chunk end; backfill_or_panic with a value of the wrong size, which must panic and leave the placeholder pending) to depth 6 / 7. The visible length may never reach the earliest hole, iovs/flatten/stable_consumer succeed exactly when no hole is pending, and after all backfills everything is consumable with the backfilled values. " + IOVEC_COMMON,
+    text="All histories over a 17-op backpatch alphabet (16 single-pipe ops to depth 7 / 8, with the clone-while-pending op to depth 6 / 7; a clone taken while placeholders are pending, whose views must hide them too; non-initial states with 5-7 placeholders in flight; copies sized to leave exactly 4 bytes in the current arena chunk so that placeholders straddle a chunk end, placeholders of size 0/1/2 with up to 5 in flight, backfill of the 1st/2nd/3rd/last pending in any order, merging and non-merging pushes, cache flush, slice and byte consumption) to depth 7 (quick) / 8 (thorough), plus seeds, plus the chunk-end alphabet F (70-byte placeholders straddling a chunk end; backfill_or_panic with a value of the wrong size, which must panic and leave the placeholder pending) to depth 6 / 7. The visible length may never reach the earliest hole, iovs/flatten/stable_consumer succeed exactly when no hole is pending, and after all backfills everything is consumable with the backfilled values. " + IOVEC_COMMON,
     note="More than 5 placeholders in flight and placeholder sizes above 2 are not enumerated.",
 )
 CHECKS["C05"] = dict(
@@ -105,7 +105,7 @@ CHECKS["C01"] = dict(
     category="model_checking",
     design="DESIGN.md section 4, C01",
     technique="bounded-exhaustive enumeration of inputs x segmentations x input-method masks on the real Encoder and Decoder (tiny limits via hook H2, production limits via the public API), reference codec as oracle",
-    text="Tiny limits (1,1), (2,3), (3,5): every input over {FE, FD, 00, FF, FC} up to length 5 (quick) / 6 (thorough) and over 4 letters up to 6 / 8, every segmentation into <= 3 pieces with all 27 borrow/copy/anchored masks plus read, and the canonical stream fed to the decoder under every 3-way segmentation x 4 methods. Production limits: pre . x^k . h . p . x^t with k at every distance within 3 / 8 of 0, 64, 256, 4096 and the chunk limit (252 after nothing, 64008 after a full first chunk or a stuff sequence), every subset of cuts at part boundaries and inside p, 8 method masks (three of them with a rotating schedule over all 10 drain operations, since the statement covers incrementally drained output), decoded back under cuts around every header; alignment family x^a . q . x^b for all q over {FE, FD, FF, 00} up to length 4; a 3.3 MiB input through encode_read / encode_copy / encode and its canonical stream through decode_read / decode_copy in calls of 64 KiB, 700 000, 1 MiB - 1, 1 MiB, 1 MiB + 1 and 2 MiB bytes; 4 MiB (quick) / 32 MiB (thorough) encoder -> decoder streams for every single call size x method x payload shape, drained after every call. State-space closure at the tiny limits: a BFS over the encoder's (chunk limit, bytes in chunk, held-back flag) and the decoder's state reaches a fix-point, and from every reachable state every next piece of length 1..3 and follow-up are fed as separate calls by every method and compared in full, so every reachable (state, next piece) transition at these limits is exercised. " + HCOBS_COMMON,
+    text="Tiny limits (1,1), (2,3), (3,5): every input over {FE, FD, 00, FF, FC} up to length 5 (quick) / 6 (thorough) and over 4 letters up to 6 / 8, every segmentation into <= 3 pieces with all 27 borrow/copy/anchored masks plus read, and the canonical stream fed to the decoder under every 3-way segmentation x 4 methods. Production limits: pre . x^k . h . p . x^t with k at every distance within 3 / 8 of 0, 64, 256, 4096 and the chunk limit (252 after nothing, 64008 after a full first chunk or a stuff sequence), every subset of cuts at part boundaries and inside p, 8 method masks (three of them with a rotating schedule over all 10 drain operations, since the statement covers incrementally drained output), decoded back under cuts around every header; alignment family x^a . q . x^b for all q over {FE, FD, FF, 00} up to length 4; a 3.3 MiB input through encode_read / encode_copy / encode and its canonical stream through decode_read / decode_copy in calls of 64 KiB, 700 000, 1 MiB - 1, 1 MiB, 1 MiB + 1 and 2 MiB bytes; 2 MiB (quick) / 32 MiB (thorough) encoder -> decoder streams for every single call size x method x payload shape, drained after every call; tiny limits: every 2-way segmentation x {borrow, copy} x 16 drain pairs (round trip under incremental draining). State-space closure at the tiny limits: a BFS over the encoder's (chunk limit, bytes in chunk, held-back flag) and the decoder's state reaches a fix-point, and from every reachable state every next piece of length 1..3 and follow-up are fed as separate calls by every method and compared in full, so every reachable (state, next piece) transition at these limits is exercised. " + HCOBS_COMMON,
     note="Strings longer than the bounds with several interacting boundaries at production limits are covered only through the scaled-down limits; bytes outside the alphabets matter only through comparison with FE / FD.",
 )
 CHECKS["C02"] = dict(
@@ -113,7 +113,7 @@ CHECKS["C02"] = dict(
     category="model_checking",
     design="DESIGN.md section 4, C02",
     technique="bounded-exhaustive enumeration of inputs x segmentations x method masks x drain schedules on the real Encoder; stuff-freedom, split-independence (equality with a single-call reference) and length bound checked on every output; exhaustive find_stuff_sequence",
-    text="Same input families as C01 with, in addition, every 2-way segmentation x all 36 pairs of drain operations (nothing, consume 1 / all slices, advance 1 / all bytes, read 2 bytes) and x 16 pairs of over-asking drains (consume one slice more than is stable, advance 1 / 2 bytes more than is stable, Read into a buffer larger than everything consumable) so that the early/late split of the output is enumerated and a consumer asking for too much gets only what is consumable; every output is compared with the single-call canonical encoding (split-, method- and drain-independence), searched for FE FD, and checked against len + 1 + 2*ceil(len/64008). hcobs::find_stuff_sequence is compared with a two-line reference on all strings over 5 letters up to length 9 / 10 and at every alignment 0..24. " + HCOBS_COMMON,
+    text="Same input families as C01 with, in addition, every 2-way segmentation x all 36 pairs of drain operations (nothing, consume 1 / all slices, advance 1 / all bytes, read 2 bytes; the production families also read into a 100-byte buffer) and x 16 pairs of over-asking drains (consume one slice more than is stable, advance 1 / 2 bytes more than is stable, Read into a buffer larger than everything consumable) so that the early/late split of the output is enumerated and a consumer asking for too much gets only what is consumable; every output is compared with the single-call canonical encoding (split-, method- and drain-independence), searched for FE FD, and checked against len + 1 + 2*ceil(len/64008). hcobs::find_stuff_sequence is compared with a two-line reference on all strings over 5 letters up to length 9 / 10 and at every alignment 0..24. " + HCOBS_COMMON,
     note="The length bound is checked on the enumerated lengths (every length class around both limits), not on all lengths.",
 )
 CHECKS["C07"] = dict(
@@ -178,7 +178,7 @@ CHECKS["C18"] = dict(
     category="model_checking",
     design="DESIGN.md section 4, C18",
     technique="explicit enumeration of suspension schedules: real OS threads running the real AtomicBaseTime (hook H3 observer as step hook), each writer held after exactly k of its atomic/lock steps, observer optionally paused mid-operation while another writer completes, then run alone; plus the loom harnesses' per-snapshot lock/load counters",
-    text="About 25 000 scenarios: start state (1 or 2 prior updates, writer lock poisoned or not) x observer in {snapshot, snapshot twice, try_update(newer), try_update(+1 000 000 ms), try_update(older), sequence} paused after each of its own steps (or not started) x {no / one writer completing a whole update meanwhile} x a writer in {update(newer), update(older), try_update(newer)} suspended after each of its steps 0..11 (before lock, holding the lock before/between/after each load and store, finished), or two writers at every pair of steps (including one parked in lock() behind the other); then the observer runs alone. It must return within 64 of its own steps, must never be found inside lock() behind a suspended writer, snapshot must perform no lock operation and only as many loads as completed writes justify, try_update never a blocking lock behind a holder, false whenever a suspended writer holds the lock. The loom harnesses of C13 additionally assert 0 lock operations and a bounded number of loads per snapshot under real interleavings.",
+    text="About 25 000 scenarios: start state (1 or 2 prior updates, writer lock poisoned or not) x observer in {snapshot, snapshot twice, try_update(newer), try_update(+1 000 000 ms), try_update(older), sequence} (and four try_update calls in a row) paused after each of its own steps (or not started) x {no / one writer completing a whole update meanwhile} x a writer in {update(newer), update(older), try_update(newer)} suspended after each of its steps 0..11 (before lock, holding the lock before/between/after each load and store, finished), or two writers at every pair of steps (including one parked in lock() behind the other); then the observer runs alone. It must return within 64 of its own steps, must never be found inside lock() behind a suspended writer, snapshot must perform no lock operation and only as many loads as completed writes justify, try_update never a blocking lock behind a holder, false whenever a suspended writer holds the lock. The loom harnesses of C13 additionally assert 0 lock operations and a bounded number of loads per snapshot under real interleavings.",
     note="Step points are the stand-in operations of hook H3; lock hand-off is decided by the controller (virtual parking), never by an OS race, so every scenario is deterministic. More than two suspended writers are not enumerated.",
 )
 
